@@ -356,3 +356,27 @@ pub fn rule_matches(
     use crate::filters::network::NetworkMatchable;
     f.matches(request, regex_manager)
 }
+
+/// Identity indirection for the one `format!("{:04x}", ch)` of `stringify_arg` (textual substitution in the
+/// scratch copy). The C18.arg kernels stub it with a hand-written 4-digit lower-case hex formatter: that std's
+/// `{:04x}` produces exactly those four bytes is trusted, not proved.
+pub fn hex4(ch: u8) -> String {
+    format!("{:04x}", ch)
+}
+#[cfg(kani)]
+pub fn stub_hex4(ch: u8) -> String {
+    fn d(x: u8) -> u8 {
+        if x < 10 { b'0' + x } else { b'a' + (x - 10) }
+    }
+    let mut s = String::with_capacity(4);
+    s.push('0');
+    s.push('0');
+    s.push(d(ch >> 4) as char);
+    s.push(d(ch & 15) as char);
+    s
+}
+/// `String::from_utf8` without the validation scan (the kernels assert on the bytes themselves)
+#[cfg(kani)]
+pub fn stub_from_utf8(v: Vec<u8>) -> Result<String, std::string::FromUtf8Error> {
+    Ok(unsafe { String::from_utf8_unchecked(v) })
+}
